@@ -16,6 +16,9 @@ NEEDS_SERVICES = True
 PID = 'C41'
 MONITORS = tuple('C41,C01,C06'.split(','))
 U = 2  # the update whose requests the shadow world never sees
+# quick tier: the environment events that do not touch update handling (token-shard flips, cleanup sweeps, duplicate / stale
+# worker reports, late schedule calls, preemption) are left to C01/C04/C06, which run them on the same family; this buys depth
+QUICK_OPTS = {'token_flip': False, 'no_sweeps': True, 'dup_reports': False, 'stale_attempt': False, 'late_schedule': False, 'preempt': False}
 
 
 class PairWorld(ops.BatchWorld):
@@ -118,11 +121,12 @@ def check(tier, seed, procs):
     from vf import txpairs
 
     phase = txpairs.run_phase(tier, procs, MONITORS)
-    depth = 5 if tier == 'quick' else 8
-    res = dbmc.bfs(H, (sorted(MONITORS), base.setups(tier), tier, None), depth=depth, procs=procs, time_budget=70 if tier == 'quick' else 1500)
+    depth = 6 if tier == 'quick' else 8
+    res = dbmc.bfs(H, (sorted(MONITORS), base.setups(tier), tier, QUICK_OPTS if tier == 'quick' else None), depth=depth, procs=procs,
+                   time_budget=70 if tier == 'quick' else 1500)
     cov = bf.coverage(res, f'1 batch, update 1 committed (2-3 jobs, 1-2 nested groups), update 2 submitted step by step '
                            f'(1-2 jobs, 0-1 groups, 1-2 bunches) and committed late or never, one setup with two open updates, 2 pool instances, '
-                           f'depth {depth}; monitors {MONITORS} + shadow-world differential')
+                           f'depth {depth}{" (quick: without token flips, cleanup sweeps, duplicate/stale reports, late schedule calls, preemption)" if tier == "quick" else ""}; monitors {MONITORS} + shadow-world differential')
     out = {'coverage': cov, 'violations': res.violations, 'assumptions': bf.ASSUME + [
         'differential clause: compared only while no other update was opened after the uncommitted one (later updates would get different ids)'],
            'vacuous': None if res.states > 100 else f'only {res.states} states'}
@@ -134,5 +138,5 @@ def replay(obj):
         from vf import txpairs
 
         return txpairs.replay(obj)
-    v = dbmc.replay_history(H, (sorted(MONITORS), base.setups('thorough'), 'thorough', None), obj['history'])
+    v = dbmc.replay_history(H, (sorted(MONITORS), base.setups('thorough'), 'thorough', None), obj['history'])  # superset alphabet
     return (not v), (v[0][1] if v else 'no violation')
